@@ -198,6 +198,8 @@ def check_command(t: E.Tally, cmd, active: str | None, label: str) -> None:
                 break
         other_src = "01:999999" if not wire.split()[-6].startswith("18:") else "13:999999"
         misses.append(("src", wire.replace(wire.split()[-6], other_src, 1)))
+        if active and wire.split()[-6].startswith("18:"):  # another gateway's identical frame (only tellable when our own id is known)
+            misses.append(("src", wire.replace(wire.split()[-6], "18:999999", 1)))
         for oc in other_ctxs(code, verb, ctx):
             g = put_ctx(code, verb, pl, oc)
             if g:
